@@ -55,7 +55,8 @@ META = {
         "explored only (failing-input search): the parser proper with all ~80 dialects registered (parse_module / "
         "parse_attribute / parse_type, allow_unregistered both ways) must end with IR, ParseError or a "
         "DiagnosticException (VerifyException, ...), within a CPU budget scaled to the input length, and growth families "
-        "(unterminated literals — also inside unregistered dialect attribute bodies —, nesting, long numbers/identifiers, "
+        "(unterminated literals — also inside unregistered dialect attribute bodies —, nesting, long numbers/identifiers; numbers just "
+        "beyond CPython's int <-> str digit limit are a deterministic family of their own, independent of the growth ladder, "
         "many ops/regions/attributes) must not grow "
         "super-linearly. Every other exception class, budget overrun, uninterruptible hang or super-linear family is a "
         "failing input, shrunk by delta debugging and keyed by (function that raised, exception class)."
@@ -114,7 +115,15 @@ META = {
         "function argument, `cf.br` successor, `scf.for` induction variable, symbol name; one module with all positions, "
         "each position alone when that module is rejected; name_hint compared with the Lean model); a literal family (23 "
         "element types x 41 literals x 12 dense / array / sparse / typed-literal forms, affine `a op b` over constants incl. "
-        "0, dimensions, symbols in maps and sets; quick: a seeded twentieth covering every type, literal and form); a deterministic sweep of every "
+        "0, dimensions, symbols in maps and sets; quick: a seeded twentieth covering every type, literal and form); a digit-run family (digit strings at the "
+        "interpreter's int <-> str conversion limit L = sys.get_int_max_str_digits(), 4300 unless configured: L nines (still converts), then L+1 "
+        "nines, 1 followed by L zeros, L+1 zeros in front of 8, L+1 zeros, 2L+4 digits; in ~100 number positions of the grammar -- the width in "
+        "i<N> / si<N> / ui<N> alone and as element / result / argument / attribute type, f<N>, shape dimensions, strides, offsets, memory spaces, "
+        "plain / negative / typed / float / exponent / hexadecimal literals, dense / array / sparse elements, affine constants and d<N> / s<N>, "
+        "locations, %<N>, %x#<N>, %x:<N>, ^<N>, numeric suffixes of value / block / alias / symbol / attribute names, dialect resources, llvm "
+        "array / pointer types, arith.constant, affine.for bounds and steps --; as the only parameter of every registered dialect attribute / "
+        "type name (quick: a seeded 150); and as a mutation: one ASCII digit run of a corpus chunk, whatever it means there, respelled with "
+        "more than L digits -- old digits + filler, or leading zeros in front; quick: 150 chunks + a fifteenth of the fuzz iterations); a deterministic sweep of every "
         "registered custom-syntax op name and attribute/type name through small templates; (c) short random strings over "
         "a lexer-focused alphabet (lexer correspondence only); (d) growth families at doubling sizes. Non-trivial = the "
         "text is not a verbatim corpus chunk and lexes to >= 5 tokens (or ends in a lexer error after >= 2 tokens); "
@@ -1201,7 +1210,7 @@ LIT_TYPES = ["i0", "i1", "i8", "si8", "ui8", "i32", "i64", "i1000", "index", "f1
 LIT_VALUES = ["0", "1", "-1", "127", "128", "-128", "-129", "255", "256", "300", "65536", "9223372036854775808", "18446744073709551616",
               "0.0", "-0.0", "1.5", "70000.0", "3.5e38", "3.5e39", "1.0e309", "-1.0e309", "0x7F", "0xFF", "0x7C00", "0xFFFF", "0x7FC00000",
               "0x1p3", "true", "false", "(1, 2)", "(1.0, 2.0)", "(1, 2.0)", "(300, 0)", "(70000.0, 0.0)", '"0x00"', '"0x0000803F"', '"0xZZ"', '"s"',
-              "[]", "unit", "1e"]
+              "[]", "unit", "1e", "1" + "0" * 309]
 LIT_FORMS = ["dense<{v}> : tensor<1x{t}>", "dense<[{v}]> : tensor<1x{t}>", "dense<[{v}, {v}]> : vector<2x{t}>", "dense<[[{v}]]> : tensor<1x1x{t}>",
              "dense<{v}> : tensor<0x{t}>", "dense<[]> : tensor<0x{t}>", "array<{t}: {v}>", "array<{t}: {v}, {v}>", "array<{t}>", "{v} : {t}",
              "sparse<[0], [{v}]> : tensor<1x{t}>", "sparse<0, {v}> : tensor<1x{t}>"]
@@ -1229,6 +1238,106 @@ def literal_cases(rng, quick: bool):
     for i, e in enumerate(exprs):
         for form in (AFF_FORMS if not quick else [AFF_FORMS[i % len(AFF_FORMS)]]):
             yield "attr", form.format(e=e)
+
+
+# ---- digit-run family: numbers whose spelling crosses the interpreter's int <-> str conversion limit ----------------
+# CPython refuses `int(s)` / `str(n)` / f"{n}" beyond sys.get_int_max_str_digits() decimal digits (4300 unless
+# configured) with a ValueError.  Every place of the grammar that holds digits is a place where parser code converts
+# (or prints, in a diagnostic) a number, so a digit run just beyond that limit is a boundary of *every* such place --
+# like 2^63 is one of every 64-bit place.  None of the other streams reaches it: fuzz tokens are <= 30 digits and the
+# growth ladder of the quick tier stops at 4096.
+DIGIT_POSITIONS = [
+    # builtin types whose *name* carries the number (one bare identifier for the lexer)
+    ("type", "i{D}"), ("type", "si{D}"), ("type", "ui{D}"), ("type", "f{D}"), ("type", "bf{D}"), ("type", "tensor<2xui{D}>"),
+    ("type", "vector<4xsi{D}>"), ("type", "memref<?xi{D}>"), ("type", "complex<i{D}>"), ("type", "tuple<i32, i{D}>"),
+    ("type", "(i{D}) -> ()"), ("attr", "array<i{D}: 1>"), ("attr", "1 : i{D}"), ("attr", "dense<1> : tensor<1xi{D}>"),
+    ("module", '%0 = "test.op"() : () -> i{D}'), ("module", '"test.op"() ({{\n^b(%a : si{D}):\n}}) : () -> ()'),
+    ("module", '"test.op"() {{t = ui{D}}} : () -> ()'), ("module", "func.func private @f(i{D}) -> ()"),
+    # shapes, layouts, memory spaces
+    ("type", "tensor<{D}xi32>"), ("type", "tensor<?x{D}xi32>"), ("type", "vector<{D}xi32>"), ("type", "vector<[{D}]xi32>"),
+    ("type", "memref<{D}xi32>"), ("type", "memref<4xi32, {D}>"), ("type", "memref<4xi32, strided<[{D}]>>"),
+    ("type", "memref<4xi32, strided<[1], offset: {D}>>"), ("type", "tensor<4x{D}>"), ("type", "tensor<{D}>"),
+    # integer / float / index literals, plain, signed, typed
+    ("attr", "{D}"), ("attr", "-{D}"), ("attr", "{D} : i32"), ("attr", "-{D} : i64"), ("attr", "{D} : index"), ("attr", "{D} : f32"),
+    ("attr", "{D}.0 : f32"), ("attr", "1.{D} : f64"), ("attr", "1.0e{D} : f32"), ("attr", "1.0e-{D} : f64"), ("attr", "{D} : i1000000"),
+    ("attr", "0x{D} : i32"), ("attr", "0x{D} : f32"), ("attr", "[{D}, 1]"), ("attr", "{{a = {D}}}"),
+    # dense / array / sparse element lists
+    ("attr", "dense<{D}> : tensor<1xi32>"), ("attr", "dense<[{D}]> : tensor<1xi64>"), ("attr", "dense<{D}> : tensor<1xf32>"),
+    ("attr", "dense<-{D}> : tensor<1xi8>"), ("attr", "dense<{D}> : tensor<1xi1>"), ("attr", "dense<({D}, 1)> : tensor<1xcomplex<i32>>"),
+    ("attr", "dense<{D}> : tensor<1xindex>"), ("attr", "dense<0x{D}> : tensor<1xi32>"), ("attr", "array<i32: {D}>"),
+    ("attr", "array<i64: 1, -{D}>"), ("attr", "array<f32: {D}>"), ("attr", "array<i1: {D}>"), ("attr", "sparse<[[{D}]], [1]> : tensor<1xi32>"),
+    ("attr", "sparse<[[0]], [{D}]> : tensor<1xi32>"), ("attr", "dense_resource<r{D}> : tensor<1xi32>"), ("attr", 'dense<"0x{D}"> : tensor<1xi32>'),
+    # affine maps and sets
+    ("attr", "affine_map<(d0) -> (d0 + {D})>"), ("attr", "affine_map<(d0) -> (d0 * {D})>"), ("attr", "affine_map<(d0) -> ({D})>"),
+    ("attr", "affine_map<(d0) -> (d0 floordiv {D})>"), ("attr", "affine_map<(d0) -> (d0 mod {D})>"), ("attr", "affine_map<(d0) -> (-{D})>"),
+    ("attr", "affine_set<(d0) : (d0 - {D} >= 0)>"), ("attr", "affine_map<(d{D}) -> (d{D})>"), ("attr", "affine_map<(d0)[s{D}] -> (s{D})>"),
+    # locations, SSA names / indices / result counts, block names, aliases, symbols
+    ("module", '"test.op"() : () -> () loc("f":{D}:1)'), ("module", '"test.op"() : () -> () loc("f":1:{D})'),
+    ("module", '%0:2 = "test.op"() : () -> (i32, i32)\n"test.op"(%0#{D}) : (i32) -> ()'), ("module", '%0:{D} = "test.op"() : () -> i32'),
+    ("module", '%{D} = "test.op"() : () -> i32\n"test.op"(%{D}) : (i32) -> ()'), ("module", '%a_{D} = "test.op"() : () -> i32'),
+    ("module", '%a_{D}_{D} = "test.op"() : () -> i32'), ("module", '"test.op"() ({{\n^{D}:\n}}) : () -> ()'),
+    ("module", '"test.op"() ({{\n  "test.op"()[^bb{D}] : () -> ()\n^bb{D}:\n}}) : () -> ()'), ("module", '"test.op"() ({{\n^b_{D}(%x_{D} : i32):\n}}) : () -> ()'),
+    ("module", '#a{D} = 1\n"test.op"() {{a = #a{D}}} : () -> ()'), ("module", '!t{D} = i32\n%0 = "test.op"() : () -> !t{D}'),
+    ("module", '"test.op"() {{a = @s{D}}} : () -> ()'), ("module", '"test.op"() {{a{D} = 1}} : () -> ()'), ("module", '"test.op{D}"() : () -> ()'),
+    ("module", '"test.op"() {{a = #zd.n{D}<{D}>}} : () -> !zd.t{D}<{D}>'), ("module", '{{-# dialect_resources: {{ builtin: {{ r{D}: "0x{D}" }} }} #-}}'),
+    # a few dialects whose attributes / types / custom op syntax hold a number
+    ("type", "!llvm.array<{D} x i32>"), ("type", "!llvm.ptr<{D}>"), ("type", "!llvm.struct<(i{D})>"), ("attr", "#builtin.int<{D}>"),
+    ("module", "%c = arith.constant {D} : i32"), ("module", "%c = arith.constant {D} : index"), ("module", "%c = arith.constant dense<{D}> : tensor<1xi32>"),
+    ("module", 'func.func @f(%a : memref<4xi32>) {{\n  %0 = affine.load %a[{D}] : memref<4xi32>\n  func.return\n}}'),
+    ("module", "func.func @f() {{\n  affine.for %i = 0 to {D} {{\n  }}\n  func.return\n}}"),
+    ("module", "func.func @f() {{\n  affine.for %i = 0 to 4 step {D} {{\n  }}\n  func.return\n}}"),
+    ("module", "func.func @f{D}(%a{D} : i32) -> i32 {{\n  func.return %a{D} : i32\n}}"),
+]
+_DIGITS_RE = re.compile(r"[0-9]+")
+
+
+def int_digit_limit() -> int:
+    """CPython's limit on the decimal digits of an int <-> str conversion (4300 unless configured; 0 = switched off,
+    the family then still uses 4300: long numbers are inputs like any other)"""
+    lim = getattr(sys, "get_int_max_str_digits", lambda: 4300)()
+    return lim if lim > 0 else 4300
+
+
+def digit_runs(lim: int) -> list[str]:
+    """digit strings at the limit: the longest one that still converts, then just beyond it -- all nines, a power of ten,
+    leading zeros in front of a small value (the *spelling* is long, the number is 8), only zeros -- and far beyond it"""
+    return ["9" * lim, "9" * (lim + 1), "1" + "0" * lim, "0" * (lim + 1) + "8", "0" * (lim + 1), "1" + "7" * (2 * lim + 3)]
+
+
+def inflate_digits(rng, text: str, lim: int) -> str:
+    """`text` with one of its ASCII digit runs (a literal, a shape dimension, the width in `i32`, the number in `%12`,
+    `^bb3`, `#map1`, `d0`, `loc(..:3:4)`, whatever number the dialect syntax of the chunk holds) spelled with more digits
+    than the conversion limit: the old digits first (same leading digit), then filler, or leading zeros in front"""
+    runs = list(_DIGITS_RE.finditer(text))
+    if not runs:
+        return text
+    m = rng.choice(runs)
+    old = m.group(0)
+    k = rng.random()
+    if k < 0.5:
+        new = old + rng.choice("0179") * (lim + 1 - len(old) + rng.choice([0, 0, 1, 40]))
+    elif k < 0.8:
+        new = "0" * (lim + 1) + old
+    else:
+        new = rng.choice(digit_runs(lim)[1:])
+    return text[:m.start()] + new + text[m.end():]
+
+
+def digitrun_cases(rng, quick: bool):
+    """(stream, entry, text): every number position x every digit run at the limit (quick: the first run beyond the limit
+    for every position, one seeded other run per position), then every registered dialect attribute / type name with a
+    long number as its only parameter (quick: a seeded 150 of them)"""
+    lim = int_digit_limit()
+    runs = digit_runs(lim)
+    for entry, t in DIGIT_POSITIONS:
+        for d in ([runs[1], rng.choice(runs[2:]), runs[0]] if quick else runs):
+            yield "digits.position", entry, t.format(D=d)
+    names = [("#", n) for n in _NAMES["attrs"]] + [("!", n) for n in _NAMES["types"]]
+    if quick:
+        names = rng.sample(names, min(150, len(names)))
+    for sig, n in names:
+        for t in (["{s}{n}<{D}>"] if quick else ["{s}{n}<{D}>", "{s}{n}<i{D}>", "{s}{n}<{D}, {D}>", "{s}{n}<[{D}]>", "{s}{n}<-{D}>"]):
+            yield "digits.dialect_attr", ("attr" if sig == "#" else "type"), t.format(s=sig, n=n, D=rng.choice(runs[1:4]))
 
 
 # ---- identifier shapes: every short name over the classes of characters an identifier can hold, in every position ----
@@ -1872,6 +1981,22 @@ def run_sigils(ctx: core.Ctx, ex: "Explorer", quick: bool) -> None:
     ctx.extra["outcome_depends_on_history"] = differs[:10]
 
 
+def run_digitruns(ctx: core.Ctx, ex: "Explorer", chunks: list[str], quick: bool) -> None:
+    """deterministic (not time-boxed; texts of 4-9 kB that lex as a handful of tokens, about a millisecond each)"""
+    rng = ctx.rng
+    lim = int_digit_limit()
+    ctx.extra["int_max_str_digits"] = lim
+    for i, (stream, entry, text) in enumerate(digitrun_cases(rng, quick)):
+        ex.parse(stream, entry, i % 3 != 0, text)
+        if ex.slow >= 4:
+            return
+    small = [c for c in chunks if len(c) <= 2500 and _DIGITS_RE.search(c)]
+    for i, c in enumerate(rng.sample(small, min(len(small), 150)) if quick else small * 3):
+        ex.parse("digits.corpus", "module", i % 2 == 0, inflate_digits(rng, c, lim), seed_text=c)
+        if ex.slow >= 4:
+            return
+
+
 def run_idents(ctx: core.Ctx, ex: "Explorer", quick: bool) -> None:
     """every identifier shape of length <= 3 (quick: plus a seeded sample of length 4; thorough: <= 4 plus 1500 seeded of length 5) in every naming
     position.  One module holds all positions; when it ends in a diagnostic (one position rejects the name) every
@@ -2098,7 +2223,8 @@ def run(ctx: core.Ctx) -> None:
                   ("attr", '"é\\n"'), ("attr", '"\\C3"'), ("attr", '"\\C3\\A9"'), ("attr", '@"\\ED\\A0\\80"'),
                   ("attr", "affine_map<(d0) -> (5 mod 0)>"), ("attr", "affine_set<(d0) : (1 floordiv 0 >= 0)>"),
                   ("attr", "dense<[1]> : tensor<1xcomplex<f32>>"), ("module", '%_1 = "test.op"() : () -> i32'),
-                  ("module", '"test.op"() {a = #zp.n<x>} : () -> !zp.n<x>')]
+                  ("module", '"test.op"() {a = #zp.n<x>} : () -> !zp.n<x>'),
+                  ("attr", "dense<1" + "0" * 309 + "> : tensor<1xf32>")]
         for entry, t in probes:
             ex.parse("probe", entry, True, t)
             ex.lex("probe", t)
@@ -2144,6 +2270,10 @@ def run(ctx: core.Ctx) -> None:
             if ex.slow >= 4:
                 break
         mark("literals")
+        # (0c'') digit runs at the interpreter's int <-> str conversion limit: every number position of the grammar,
+        # every dialect attribute / type name, and corpus chunks with one of their own numbers spelled that long
+        run_digitruns(ctx, ex, chunks, quick)
+        mark("digitruns")
         # (0d) raw scan of the bodies of unregistered dialect attributes / types
         run_rawscan(ctx, ex, chunks, quick)
 
@@ -2197,6 +2327,10 @@ def run(ctx: core.Ctx) -> None:
                 seed = rng.choice(small)
                 ex.parse("sigil.mutation", "module", it % 60 != 3, both_sigils(rng, seed if rng.random() < 0.7 else mutate(rng, seed)),
                          seed_text=seed, clone=it % 30 == 3)
+            elif it % 15 == 13:
+                seed = rng.choice(small)
+                text = inflate_digits(rng, seed if rng.random() < 0.5 else mutate(rng, seed), int_digit_limit())
+                ex.parse("digits.mutation", "module", it % 30 == 13, text, seed_text=seed)
             elif it % 15 == 8:
                 entry, prefix, suffix = rng.choice(RAW_WRAPPERS)
                 text = raw_mutate(rng, rng.choice(RAW_MUTATIONS), prefix, raw_body(rng), suffix)
